@@ -116,3 +116,29 @@ package async
 //@   requires c != nil
 //@   ensures #routed (chanclosed(ctxdone(c.ctx)) && result0 == nil && result1 != nil) || (chanclosed(c.wait) && result0 == c.result && result1 == c.err)
 //@   modifies region($chanclosed)
+//
+// ---- life cycle of the runner queue and the proc channel: Run starts the one lane goroutine on its first call only;
+// Stop closes the queue (the stop channel) on its first call only and touches nothing that decides whether the lane
+// starts: a Stop that lands before Run must not keep the lane from draining what was accepted ----
+//@ func RunnerQ.Run
+//@   requires c != nil
+//@   ensures #first !old(oncedone(c.startOnce)) ==> spawned() == old(spawned()) + 1 && wgAdded == old(wgAdded) + ite(c.wg != nil, 1, 0)
+//@   ensures #again old(oncedone(c.startOnce)) ==> spawned() == old(spawned()) && wgAdded == old(wgAdded)
+//@   ensures #stopuntouched oncedone(c.stopOnce) == old(oncedone(c.stopOnce))
+//@   modifies region($oncedone), region($spawns), wgAdded
+//@ func RunnerQ.Stop
+//@   requires c != nil && c.q != nil && c.q.reqList != nil && !held(c.q.lock) && c.stopChan != nil
+//@   ensures #first !old(oncedone(c.stopOnce)) ==> c.q.closed
+//@   ensures #startuntouched oncedone(c.startOnce) == old(oncedone(c.startOnce)) && spawned() == old(spawned()) && chanclosed(c.stopChan) == old(chanclosed(c.stopChan))
+//@   modifies region($oncedone), Q.closed, list.List.lmem, list.List.lcnt, list.Element.lrk, list.Element.Value
+//@ func ProcChan.Run
+//@   requires c != nil
+//@   ensures #first !old(oncedone(c.startOnce)) ==> spawned() == old(spawned()) + 1 && wgAdded == old(wgAdded) + ite(c.wg != nil, 1, 0)
+//@   ensures #again old(oncedone(c.startOnce)) ==> spawned() == old(spawned()) && wgAdded == old(wgAdded)
+//@   ensures #stopuntouched oncedone(c.stopOnce) == old(oncedone(c.stopOnce)) && chanclosed(c.stopChan) == old(chanclosed(c.stopChan))
+//@   modifies region($oncedone), region($spawns), wgAdded
+//@ func ProcChan.Stop
+//@   requires c != nil && c.stopChan != nil && (oncedone(c.stopOnce) <==> chanclosed(c.stopChan))
+//@   ensures #first chanclosed(c.stopChan)
+//@   ensures #startuntouched oncedone(c.startOnce) == old(oncedone(c.startOnce)) && spawned() == old(spawned())
+//@   modifies region($oncedone), region($chanclosed)
